@@ -1,5 +1,6 @@
 import WM.Model.Analysis
 import WM.Lemmas.Analysis
+import WM.Spec.CodecIndex
 /-!
 C17 — index- and query-time analysis agree: documents are findable by their own words.
 
@@ -293,5 +294,89 @@ theorem highlight (text : Str) (ms : List (Nat × Nat)) (fstart fend : Nat)
 /-- instance: text "ab cd ef", matches cd and ef, fragment 1..8 -/
 example : formatFragment [97, 98, 32, 99, 100, 32, 101, 102] [(3, 5), (6, 8)] 1 8
     = [.plain [98, 32], .marked [99, 100], .plain [32], .marked [101, 102], .plain []] := by decide
+
+/-! ## Round 2: findability against the posting lists C10 specifies -/
+
+/-- the token as the posting writer of C10 receives it (`enc`: the text as a Python string) -/
+def toCodec (enc : Str → String) (boost : Rat) (t : Token) : WM.Codec.Token :=
+  { text := enc t.text, pos := t.pos, startchar := t.startchar, endchar := t.endchar, boost := boost }
+
+/-- `C17.findable` against the posting lists C10 specifies (`WM.Codec.specPostings`, which C10
+    proves the codec stores and reads back): a document whose field was analysed into `ix` is in
+    the posting list of every one of its tokens' texts, with that token's position and character
+    range; so is every query-time token whose text is an index-time token's text; and the words
+    of a run of tokens at consecutive positions have postings at consecutive positions (what a
+    phrase query asks for). -/
+theorem findable_postings (enc : Str → String) (fmt : WM.Codec.Fmt) (fb bo : Rat)
+    (docs : List WM.Codec.DocIn) (d : WM.Codec.DocIn) (hd : d ∈ docs)
+    (ix : List Token) (hix : d.toks = ix.map (toCodec enc bo)) :
+    (∀ t ∈ ix, ∃ p, (d.docnum, p) ∈ WM.Codec.specPostings fmt fb docs (enc t.text) ∧
+        (t.pos : Int) ∈ p.positions ∧
+        ((t.pos : Int), (t.startchar : Int), (t.endchar : Int)) ∈ p.chars) ∧
+    (∀ q : List Token, (∀ g ∈ q, ∃ g' ∈ ix, g'.text = g.text) →
+        ∀ g ∈ q, ∃ p, (d.docnum, p) ∈ WM.Codec.specPostings fmt fb docs (enc g.text)) ∧
+    (∀ run : List Token, (∀ t ∈ run, t ∈ ix) → ∀ p0 : Nat,
+        (∀ i (h : i < run.length), run[i].pos = p0 + i) →
+        ∀ i (h : i < run.length), ∃ p, (d.docnum, p) ∈ WM.Codec.specPostings fmt fb docs (enc run[i].text) ∧
+          ((p0 + i : Nat) : Int) ∈ p.positions) := by
+  have key : ∀ t ∈ ix, ∃ p, (d.docnum, p) ∈ WM.Codec.specPostings fmt fb docs (enc t.text) ∧
+        (t.pos : Int) ∈ p.positions ∧
+        ((t.pos : Int), (t.startchar : Int), (t.endchar : Int)) ∈ p.chars := by
+    intro t ht
+    have hocc : toCodec enc bo t ∈ WM.Codec.occ d.toks (enc t.text) := by
+      simp only [WM.Codec.occ, List.mem_filter, hix, List.mem_map]
+      exact ⟨⟨t, ht, rfl⟩, by simp [toCodec]⟩
+    have hne : (WM.Codec.occ d.toks (enc t.text)).isEmpty = false := by
+      cases h : WM.Codec.occ d.toks (enc t.text) with
+      | nil => rw [h] at hocc; cases hocc
+      | cons _ _ => rfl
+    refine ⟨{ WM.Codec.postingSpec fmt fb (WM.Codec.occ d.toks (enc t.text)) with
+        weight := (WM.Codec.postingSpec fmt fb (WM.Codec.occ d.toks (enc t.text))).weight * d.boost }, ?_, ?_, ?_⟩
+    · simp only [WM.Codec.specPostings, List.mem_filterMap]
+      exact ⟨d, hd, by rw [hne]; rfl⟩
+    · simp only [WM.Codec.postingSpec, List.mem_map]
+      exact ⟨_, hocc, rfl⟩
+    · simp only [WM.Codec.postingSpec, List.mem_map]
+      exact ⟨_, hocc, rfl⟩
+  refine ⟨key, ?_, ?_⟩
+  · intro q hq g hg
+    obtain ⟨g', hg', he⟩ := hq g hg
+    obtain ⟨p, hp, _⟩ := key g' hg'
+    exact ⟨p, by rw [← he]; exact hp⟩
+  · intro run hin p0 hpos i hi
+    obtain ⟨p, hp, hpp, _⟩ := key run[i] (hin _ (List.getElem_mem hi))
+    exact ⟨p, hp, by rw [← hpos i hi]; exact hpp⟩
+
+/-- `findable_postings` composed with the analysis model, mode-free chains (Standard/Simple/
+    Keyword/ID/Regex analyzers ...): every token of the query-time analysis of a text has the
+    document indexed from that text in its posting list. -/
+theorem findable_postings_chain (tb : Tables) (tk : Tokenizer) (fs : List Filter) (text : List CChar)
+    (htk : Tokenizer.modeFree tk = true) (hfs : ∀ f ∈ fs, Filter.modeFree f = true)
+    (enc : Str → String) (fmt : WM.Codec.Fmt) (fb bo : Rat)
+    (docs : List WM.Codec.DocIn) (d : WM.Codec.DocIn) (hd : d ∈ docs)
+    (hix : d.toks = (analyze tb tk fs .index text).map (toCodec enc bo)) :
+    ∀ g ∈ analyze tb tk fs .query text,
+      ∃ p, (d.docnum, p) ∈ WM.Codec.specPostings fmt fb docs (enc g.text) ∧ (g.pos : Int) ∈ p.positions := by
+  intro g hg
+  rw [mode_agree_chain tb tk fs text htk hfs] at hg
+  obtain ⟨p, hp, hpp, _⟩ := (findable_postings enc fmt fb bo docs d hd _ hix).1 g hg
+  exact ⟨p, hp, hpp⟩
+
+/-- the same for the n-gram word analyzers (`NgramWordAnalyzer`, NGRAMWORDS fields) -/
+theorem findable_postings_ngramwords (tb : Tables) (tk : Tokenizer) (pre : List Filter) (min max : Nat) (at_ : At)
+    (text : List CChar) (htk : Tokenizer.modeFree tk = true) (hpre : ∀ f ∈ pre, Filter.modeFree f = true)
+    (hmin : 1 ≤ min) (hmm : min ≤ max)
+    (enc : Str → String) (fmt : WM.Codec.Fmt) (fb bo : Rat)
+    (docs : List WM.Codec.DocIn) (d : WM.Codec.DocIn) (hd : d ∈ docs)
+    (hix : d.toks = (analyze tb tk (pre ++ [.ngram min max at_]) .index text).map (toCodec enc bo)) :
+    ∀ g ∈ analyze tb tk (pre ++ [.ngram min max at_]) .query text,
+      ∃ p, (d.docnum, p) ∈ WM.Codec.specPostings fmt fb docs (enc g.text) := by
+  intro g hg
+  rw [analyze_snoc] at hg hix
+  rw [mode_agree_chain tb tk pre text htk hpre] at hg
+  simp only [runFilter] at hg hix
+  obtain ⟨g', hg', he⟩ := (mode_agree_ngrams min max hmin hmm).1 at_ _ g hg
+  exact (findable_postings enc fmt fb bo docs d hd _ hix).2.1 [g]
+    (by intro x hx; simp at hx; subst hx; exact ⟨g', hg', he⟩) g (by simp)
 
 end WM.C17
